@@ -954,6 +954,15 @@ def finish_pending(ck: Checker, M: Model):
                     ctx.violation(dict(call='pyparse', kind='model-mismatch'), dict(d['case'], code=d['code']), mp, d['impl_py'],
                                   'python parses the emitted text differently from QExp.pyparse',
                                   kind='correspondence', corr='coq/qasm/QExp.v pyparse vs ast.parse')
+        elif kind == 'formals':
+            m = M.a(d['qi'])
+            flat = [int(x) for x in re.findall(r'\d+', m)]
+            if m != d['impl'] or d['header'] != list(range(d['nparams'])) or flat != d['header']:
+                ctx.violation(dict(call='get_qasm_gate_def', kind='model-mismatch'), dict(d['case'], block=d['name']),
+                              dict(body=m, header=list(range(d['nparams']))), dict(body=d['impl'], header=d['header']),
+                              'formal parameters printed in a CircuitGate definition differ from QEnc.body_formals '
+                              '(contiguous disjoint slices of p0..p{n-1} in body order)',
+                              kind='correspondence', corr='coq/qasm/QEnc.v body_formals vs CircuitGate.get_qasm_gate_def')
         elif kind == 'bind':
             m, h = M.a(d['qi']), M.a(d['has'])
             if m != d['impl'] or h != 'T':
@@ -1372,26 +1381,43 @@ def check_roundtrip(ck: Checker, circ, key, label=None, shrinking=False):
         ctx.violation(dict(call='roundtrip', symptom='unitary-changed', gate=label), case, 'same unitary', f'max entry difference {d:.3e}',
                       'decode(encode(circuit)) implements a different unitary')
         return text
-    a, b = ops_per_qubit(circ), ops_per_qubit(back)
-    for q, (sa, sb) in enumerate(zip(a, b)):
-        ok = len(sa) == len(sb)
-        if ok:
-            for x, y in zip(sa, sb):
-                same_gate = (x.gate == y.gate and len(x.params) == len(y.params) and all(p == r for p, r in zip(x.params, y.params)))
-                if tuple(x.location) != tuple(y.location):
-                    ok = False
-                elif not same_gate:
-                    # alias spellings decode to another gate object: compare the operation's unitary
-                    if float(np.max(np.abs(np.array(x.get_unitary().numpy) - np.array(y.get_unitary().numpy)))) > 1e-9:
-                        ok = False
-                    else:
-                        ctx.count('rt_alias_ops')
-        if not ok:
-            ctx.violation(dict(call='roundtrip', symptom='per-qubit-order-changed', gate=label), dict(case, qubit=q),
-                          [repr(o)[:40] for o in sa], [repr(o)[:40] for o in sb],
-                          'decode(encode(circuit)) has a different operation sequence on a qubit')
+    views = [('as encoded', ops_per_qubit(circ), ops_per_qubit(back))]
+    if circuit_gates_of(circ):
+        try:
+            from bqskit.ir.gates import IdentityGate
+            ua = unfolded_ops(I, circ)
+            if not any(isinstance(o.gate, IdentityGate) for sq in ua for o in sq):   # identityN decodes to a CircuitGate of U(0,0,0)
+                views.append(('after unfolding', ua, unfolded_ops(I, back)))
+                ctx.count('rt_unfolded_compared')
+        except Exception:  # noqa
+            ctx.count('rt_unfold_failed')
+    for vname, a, b in views:
+        bad = first_order_difference(ck, a, b)
+        if bad is not None:
+            q, sa, sb = bad
+            ctx.violation(dict(call='roundtrip', symptom='per-qubit-order-changed', gate=label), dict(case, qubit=q, view=vname),
+                          [repr(o)[:60] for o in sa], [repr(o)[:60] for o in sb],
+                          'decode(encode(circuit)) has a different (gate, parameters) sequence on a qubit (' + vname + ')')
             break
     return text
+
+
+def first_order_difference(ck: Checker, a, b):
+    """first qubit whose operation sequences differ (same location, and same gate + parameters, or - for alias
+    spellings that decode to another gate object - the same operation unitary)"""
+    np = ck.I.np
+    for q, (sa, sb) in enumerate(zip(a, b)):
+        if len(sa) != len(sb):
+            return q, sa, sb
+        for x, y in zip(sa, sb):
+            if tuple(x.location) != tuple(y.location):
+                return q, sa, sb
+            same = (x.gate == y.gate and len(x.params) == len(y.params) and all(p == r for p, r in zip(x.params, y.params)))
+            if not same:
+                if float(np.max(np.abs(np.array(x.get_unitary().numpy) - np.array(y.get_unitary().numpy)))) > 1e-9:
+                    return q, sa, sb
+                ck.ctx.count('rt_alias_ops')
+    return None
 
 
 def rt_failure(I: Impl, circ):
@@ -1426,8 +1452,17 @@ def _spelling(g):
 
 
 def _ops_repr(circ):
-    return [dict(gate=repr(op.gate)[:50], qasm=_spelling(op.gate), loc=list(op.location), params=[float(p) for p in op.params])
-            for op in circ]
+    from bqskit.ir.gates import CircuitGate
+    out = []
+    for op in circ:
+        d = dict(gate=repr(op.gate)[:50], loc=list(op.location), params=[float(p) for p in op.params])
+        if isinstance(op.gate, CircuitGate):
+            # nested definition, so that a stored case can be rebuilt exactly
+            d['circuit'] = dict(n=op.gate._circuit.num_qudits, ops=_ops_repr(op.gate._circuit))
+        else:
+            d['qasm'] = _spelling(op.gate)
+        out.append(d)
+    return out
 
 
 _T_CACHE = []
@@ -1448,9 +1483,16 @@ def rebuild(I: Impl, case):
     for g in T['lib']:
         if g['spelling'] is not None:
             by.setdefault(g['spelling'], T['gates'][g['gate']])
+    from bqskit.ir.gates import CircuitGate
     n = case.get('n') or (1 + max(max(o['loc']) for o in case['ops']))
     c = I.Circuit(n)
     for o in case['ops']:
+        if 'circuit' in o:
+            inner = rebuild(I, o['circuit'])
+            if inner is None or inner.num_params != len(o['params']):
+                return None
+            c.append_gate(CircuitGate(inner), o['loc'], o['params'])
+            continue
         g = by.get(o.get('qasm'))
         if g is None or g.num_params != len(o['params']):
             return None
@@ -1474,6 +1516,78 @@ def gen_rt_circuit(I: Impl, rng, pool, n, nops):
 # =============================================================================
 # run
 # =============================================================================
+def gen_nested_body(I: Impl, rng, pool, width: int, depth: int):
+    """a circuit (to be wrapped as a CircuitGate): parameterised gates with distinct random values BEFORE and
+    AFTER nested CircuitGates (nesting to `depth`), a nested gate possibly used twice with different values"""
+    from bqskit.ir.gates import CircuitGate
+    par = [p for p in pool if p[0].num_qudits <= width and p[0].num_params > 0]
+    anyg = [p for p in pool if p[0].num_qudits <= width]
+    c = I.Circuit(width)
+
+    def plain(k):
+        for _ in range(k):
+            g = rng.choice(par if (par and rng.random() < 0.7) else anyg)[0]
+            c.append_gate(g, rng.sample(range(width), g.num_qudits), [round(rng.uniform(-3, 3), 3) for _ in range(g.num_params)])
+    plain(rng.randint(1, 2))
+    if depth > 0:
+        for _ in range(rng.randint(1, 2)):
+            w = rng.randint(1, width)
+            inner = gen_nested_body(I, rng, pool, w, depth - 1)
+            cg = CircuitGate(inner)
+            c.append_gate(cg, rng.sample(range(width), w), inner.params)
+            if rng.random() < 0.5:
+                plain(1)
+            if cg.num_params > 0 and rng.random() < 0.5:
+                # the same CircuitGate again, other location, other parameter values
+                c.append_gate(cg, rng.sample(range(width), w), [round(rng.uniform(-3, 3), 3) for _ in range(cg.num_params)])
+    plain(rng.randint(1, 2))
+    return c
+
+
+def circuit_gates_of(circ, acc=None):
+    """every CircuitGate occurring in circ, at any depth"""
+    from bqskit.ir.gates import CircuitGate
+    acc = [] if acc is None else acc
+    for op in circ:
+        if isinstance(op.gate, CircuitGate):
+            if not any(op.gate is g for g in acc):
+                acc.append(op.gate)
+                circuit_gates_of(op.gate._circuit, acc)
+    return acc
+
+
+def check_gate_defs(ck: Checker, M2: Model, circ, text: str, case):
+    """correspondence for CircuitGate.get_qasm_gate_def: the formal parameters printed on every body line of
+    every `gate circuitgate_<id> (...) ... { ... }` block vs QEnc.body_formals"""
+    from bqskit.ir.gates import CircuitGate
+    ctx = ck.ctx
+    for cg in circuit_gates_of(circ):
+        name = 'circuitgate_%d' % abs(hash(cg))
+        m = re.search(r'gate ' + name + r' (?:\(([^)]*)\) )?q[^{]*\{\n((?:\t[^\n]*\n)*)\}', text)
+        if not m:
+            ctx.broken_obligation('definition block of a CircuitGate not found in the encoder output', name)
+            continue
+        header = [int(x.strip()[1:]) for x in m.group(1).split(',')] if m.group(1) else []
+        lines = [ln for ln in m.group(2).split('\n') if ln.strip()]
+        printed = []
+        for ln in lines:
+            mm = re.match(r'\t[\w()/.]+?(?:\(([^)]*)\))? q', ln)
+            args = mm.group(1) if mm else None
+            printed.append([int(x.strip()[1:]) for x in args.split(',')] if args and re.fullmatch(r'\s*p\d+(\s*,\s*p\d+)*\s*', args) else [])
+        ops = [(isinstance(op.gate, CircuitGate), op.num_params) for op in cg._circuit]
+        q = 'formals [' + ' '.join('[%d %d]' % (1 if b else 0, n) for b, n in ops) + ']'
+        ck.pending.append(('formals', dict(case=case, qi=M2.q(q), name=name,
+                                           impl='[' + ' '.join(fmt_ints(x) for x in printed) + ']',
+                                           header=header, nparams=cg.num_params)))
+        ctx.count('gate_def_blocks')
+
+
+def unfolded_ops(I: Impl, circ):
+    c = circ.copy()
+    c.unfold_all()
+    return ops_per_qubit(c)
+
+
 def enum_sem(depth: int, leaves, binops, unops):
     """all semantic trees of the given depth bound over a small alphabet"""
     if depth == 0:
@@ -1492,6 +1606,25 @@ def enum_sem(depth: int, leaves, binops, unops):
             seen.add(t)
             res.append(t)
     return res
+
+
+def directed_nested(I: Impl):
+    """round-trip circuits with parameterised CircuitGates nested inside CircuitGates, followed in the same body by
+    parameterised operations with other values (the parameter-offset bookkeeping of get_qasm_gate_def)"""
+    from bqskit.ir.gates import U3Gate, CNOTGate, RZGate, RXGate, CircuitGate
+    C = I.Circuit
+    i1 = C(2); i1.append_gate(U3Gate(), 0, [0.11, 0.22, 0.33]); i1.append_gate(CNOTGate(), (0, 1)); i1.append_gate(RZGate(), 1, [0.44])
+    i2 = C(2); i2.append_gate(U3Gate(), 1, [1.5, -0.7, 2.9]); i2.append_gate(CNOTGate(), (1, 0)); i2.append_gate(RZGate(), 0, [-1.3])
+    mid = C(3); mid.append_gate(RXGate(), 1, [0.05]); mid.append_circuit(i1, (0, 1), True); mid.append_circuit(i2, (1, 2), True)
+    mid.append_gate(U3Gate(), 2, [0.9, 1.9, 2.8])
+    a = C(3); a.append_gate(U3Gate(), 0, [0.5, 0.6, 0.7]); a.append_circuit(mid, (0, 1, 2), True); a.append_gate(CNOTGate(), (0, 2))
+    # depth 3, the same CircuitGate twice with different parameter values
+    top = C(3); top.append_gate(RZGate(), 0, [2.2]); top.append_circuit(mid, (2, 0, 1), True); top.append_gate(RXGate(), 2, [-0.6])
+    b = C(3)
+    g = CircuitGate(top)
+    b.append_gate(g, (0, 1, 2), top.params)
+    b.append_gate(g, (1, 2, 0), [0.1 * (k + 1) for k in range(g.num_params)])
+    return [a, b]
 
 
 def directed_expressions():
@@ -1693,6 +1826,15 @@ def run(ctx: vf.Ctx):
         d13 = {'diag', 'st', 'pxz'}
         good = [p for p in pool if p[2] not in d13] + [(U1qPiGate, 'U1qPiGate', 'U1q'), (U1qPi2Gate, 'U1qPi2Gate', 'U1q'),
                                                        (IdentityGate(2), 'IdentityGate(2)', 'identity2')]
+        nest_pool = [p for p in good if p[0].num_qudits <= 3 and not p[1].startswith(('U1qPi', 'Identity'))
+                     and p[2] not in ('rxx(pi/2)', 'ryy(pi/2)', 'rzz(pi/2)')]
+        M2 = Model()
+        # directed: the shape of seeded/C17-A (nested parameterised CircuitGates followed by parameterised gates)
+        for c in directed_nested(I):
+            t = check_roundtrip(ck, c, ('rt-nested', repr(_ops_repr(c))))
+            if t:
+                check_gate_defs(ck, M2, c, t, dict(kind='roundtrip', text=t[:3000], ops=_ops_repr(c), n=c.num_qudits))
+            ctx.count('roundtrip_nested_directed')
         for i in range(ctx.n(250, 6000)):
             n = rng.randint(1, 5)
             c = gen_rt_circuit(I, rng, good, n, rng.randint(1, 12))
@@ -1705,7 +1847,17 @@ def run(ctx: vf.Ctx):
                     outer.append_gate(good[0][0], [0, 1][:good[0][0].num_qudits]) if good[0][0].num_qudits <= 2 and good[0][0].num_params == 0 else None
                     inner = outer
                 c.append_gate(CircuitGate(inner), rng.sample(range(n), 2), inner.params)
+            if rng.random() < 0.30 and n >= 2:
+                # CircuitGates nested to depth 2-3, parameterised gates before and after the nested blocks
+                w = rng.randint(1, min(3, n))
+                body = gen_nested_body(I, rng, nest_pool, w, rng.choice([2, 2, 3]))
+                c.append_gate(CircuitGate(body), rng.sample(range(n), w), body.params)
+                if rng.random() < 0.5:
+                    c.append_gate(CircuitGate(body), rng.sample(range(n), w), [round(rng.uniform(-3, 3), 3) for _ in body.params])
+                ctx.count('roundtrip_nested_depth>=2')
             t = check_roundtrip(ck, c, ('rt', i, repr(_ops_repr(c))))
+            if t and circuit_gates_of(c):
+                check_gate_defs(ck, M2, c, t, dict(kind='roundtrip', text=t[:3000], ops=_ops_repr(c), n=c.num_qudits))
             ctx.count('roundtrip_random')
             if i == 0 and t:
                 ctx.sample(dict(roundtrip_text=t[:400]))
@@ -1716,6 +1868,12 @@ def run(ctx: vf.Ctx):
         c.append_gate(CircuitGate(inner), 0, [0.3])
         check_roundtrip(ck, c, ('rt-frozen-in-circuitgate',), label='U1q')
 
+        try:
+            M2.run()
+            finish_pending(ck, M2)
+        except Exception:  # noqa
+            import traceback
+            ctx.broken_obligation('correspondence run of the extracted model failed (gate definitions)', traceback.format_exc())
     lap('roundtrips')
     # ---- directed: u0 ------------------------------------------------------------------------
     u0 = 'OPENQASM 2.0;\ninclude "qelib1.inc";\nqreg q[1];\nu0(1) q[0];\n'
